@@ -211,6 +211,13 @@ class Exec:
             self.loop_id = {}
             for key, (sub, nth) in lm.items():
                 hits = [n for n in self.loops if isinstance(n, ast.For) and sub in ast.unparse(n.iter)]
+                if nth is None:
+                    # every loop over this iterable carries the same invariant (e.g. a loop duplicated into both arms of an if)
+                    if not hits:
+                        raise ContractError(f'no loop over `{sub}` in the verified text: the contract does not bind')
+                    for h in hits:
+                        self.loop_id[id(h)] = key
+                    continue
                 if len(hits) <= nth:
                     raise ContractError(f'no loop #{nth} over `{sub}` in the verified text: the contract does not bind')
                 self.loop_id[id(hits[nth])] = key
